@@ -21,7 +21,19 @@ import (
 	"github.com/internetarchive/Zeno/pkg/models"
 )
 
-const propID = "C03"
+// The same harness decides one clause of C17 when it is built as c17b ("the preprocessor, archiver and
+// postprocessor worker gauges equal the number of live workers - zero after stop"): only the gauges are judged then.
+var (
+	propID      = "C03"
+	harnessName = "c03"
+	gaugeMode   = false
+)
+
+func init() {
+	if os.Getenv("VERIF_PART") == "c17b" || os.Getenv("VERIF_HARNESS") == "c17b" {
+		propID, harnessName, gaugeMode = "C17", "c17b", true
+	}
+}
 
 const H = "http://s.example"
 
@@ -57,6 +69,7 @@ type obs struct {
 	mu           hkit.Mutex
 	stopReturned bool
 	stopStep     int
+	gaugesAtStop [3]uint64
 }
 
 func site() world.SiteDef { return siteWith(false) }
@@ -125,6 +138,13 @@ func scenario(s *scen) *vsched.Scenario {
 				time.Sleep(7 * time.Second) // the watchdog's first tick (5 s) has paused the pipeline by then
 			}
 			vsched.Point("h:stop requested", nil)
+			if a, b, c := stats.VerifRoutines(); true {
+				// every stage worker is alive at this moment (they all subscribed before the feeder started and none
+				// exits before a stop): each gauge must read the worker count, paused or not
+				o.mu.Lock()
+				o.gaugesAtStop = [3]uint64{a, b, c}
+				o.mu.Unlock()
+			}
 			if s.DiskFull {
 				watchers.StopDiskWatcher()
 			}
@@ -140,6 +160,19 @@ func scenario(s *scen) *vsched.Scenario {
 	sc.DelayBounding = true
 	sc.OKEnds = []string{vsched.EndQuiescent, vsched.EndDeadlock, vsched.EndDone, vsched.EndHorizon}
 	sc.AtEnd = func(x *vsched.Exec) error {
+		if gaugeMode {
+			n := uint64(s.Opt.Workers)
+			if g := o.gaugesAtStop; g != [3]uint64{n, n, n} {
+				return fmt.Errorf("gauges-differ-from-live-workers: %d workers per stage are alive when the stop is requested (paused=%v), the gauges read preprocessor=%d archiver=%d postprocessor=%d", n, s.Paused || s.DiskFull, g[0], g[1], g[2])
+			}
+			if !o.stopReturned || x.LiveThreads() != 0 {
+				return nil // a stop that does not complete is C03's business
+			}
+			if a, b, c := stats.VerifRoutines(); a != 0 || b != 0 || c != 0 {
+				return fmt.Errorf("gauges-not-zero: worker gauges after stop: preprocessor=%d archiver=%d postprocessor=%d", a, b, c)
+			}
+			return nil
+		}
 		if !o.stopReturned {
 			return fmt.Errorf("stop-never-returns: the stop sequence did not return (paused=%v, end=%s); blocked: %s", pause.IsPaused(), x.End, strings.Join(x.Blocked(), "; "))
 		}
@@ -293,7 +326,7 @@ func main() {
 			if err := vsched.Confirm(scenario(&ss[j]), &v); err != nil {
 				hkit.EngineError("violation did not replay: %v", err)
 			}
-			hkit.Report(propID, v.Sig, map[string]any{"engine": "explore", "harness": "c03", "scenario": ss[j], "violation": v},
+			hkit.Report(propID, v.Sig, map[string]any{"engine": "explore", "harness": harnessName, "scenario": ss[j], "violation": v},
 				fmt.Sprintf("%s: %s: %s", r.Name, v.Kind, firstLine(v.Message)))
 		}
 		total.Merge(r.Rep)
@@ -302,12 +335,12 @@ func main() {
 		"states": total.States, "transitions": total.Transitions, "traces_validated_against_impl": total.Executions,
 		"samples": []any{total.Sample}, "exhaustive": total.Exhaustive, "scenarios": len(ss), "distinct_outcomes": len(outcomes),
 		"per_scenario": per,
-		"explanation":  "part A: the real stop sequence (reactor.Freeze, the four stage Stops, seencheck close, source stop, reactor.Stop) as a thread that by default runs after the drain; every schedule with at most P deviations moves the stop request before any step of the run (idle, mid-fetch, between stages, while paused), all select outcomes; oracle: the stop sequence returns, every thread has exited, worker gauges are zero, no panic",
+		"explanation":  map[bool]string{true: "part B of C17: the C03 part A harness judged for the worker gauges only - ", false: ""}[gaugeMode] + "part A: the real stop sequence (reactor.Freeze, the four stage Stops, seencheck close, source stop, reactor.Stop) as a thread that by default runs after the drain; every schedule with at most P deviations moves the stop request before any step of the run (idle, mid-fetch, between stages, while paused), all select outcomes; oracle: the stop sequence returns, every thread has exited, worker gauges are zero, no panic",
 	}, []string{
 		"fake transport and fake WARC client: closing/renaming of real WARC files is decided by part B (real process), not here",
 		"source = harness sink + feeder thread (the lq/hq adapters are exercised in C04/C15)",
 	}, hkit.Violations())
-	fmt.Printf("C03 %s (part A): %d scenarios, %d executions, %d states, %d transitions, exhaustive=%v\n", a.Tier, len(ss), total.Executions, total.States, total.Transitions, total.Exhaustive)
+	fmt.Printf(propID+" %s (part "+map[bool]string{true: "B", false: "A"}[gaugeMode]+"): %d scenarios, %d executions, %d states, %d transitions, exhaustive=%v\n", a.Tier, len(ss), total.Executions, total.States, total.Transitions, total.Exhaustive)
 	hkit.Exit()
 }
 
